@@ -52,6 +52,7 @@ struct TaskCtl {
   int lib_depth = 0;       // > 0: inside a library call region
   int exempt = 0;          // > 0: harness code (no yield / fault / count)
   int in_static_init = 0;  // > 0: between guard_acquire and release/abort
+  int in_once = 0;         // > 0: inside a pthread_once / call_once routine
   int no_preempt = 0;      // > 0: yields do not switch (sweeps)
   uint32_t op_index = 0;   // index of the operation being executed
   int op_kind = -1;        // its kind (for the death line)
